@@ -1,10 +1,12 @@
 #!/bin/bash
 # tools/seed_baselines.sh <ID> [<ID> ...] : sequentially, in the author's scratch worktree /tmp/seed-<ID>: run the demo
 # without and with each seeded patch, and the pinned suite with it. Results: /verif/seeded/<ID>-<k>/{demo.txt,baseline.txt}.
+# Second-wave seeds: SEEDW=seed2 SEEDOFF=3 (stored as <ID>-4..6).
 # Sequential on purpose: concurrent pytest runs of PrimAITE interfere with each other (shared session directories).
+W=${SEEDW:-seed}; OFF=${SEEDOFF:-0}
 for id in "$@"; do
   for k in 1 2 3; do
-    sd=/tmp/seed-$id/out/$k; wt=/tmp/seed-$id; dst=/verif/seeded/$id-$k
+    sd=/tmp/$W-$id/out/$k; wt=/tmp/$W-$id; dst=/verif/seeded/$id-$((k+OFF))
     [ -f $sd/patch.diff ] || continue
     mkdir -p $dst
     if grep -q "missing=0" $dst/baseline.txt 2>/dev/null && [ -f $dst/demo.txt ]; then continue; fi
@@ -15,6 +17,6 @@ for id in "$@"; do
     echo "demo_exit_without_change=$d0 demo_exit_with_change=$d1" > $dst/demo.txt
     /venv/bin/python /verif/tools/baseline.py $wt 2>&1 | head -3 > $dst/baseline.txt
     git checkout -q -- .
-    echo "$id-$k $(cat $dst/demo.txt) $(head -1 $dst/baseline.txt)"
+    echo "$id-$((k+OFF)) $(cat $dst/demo.txt) $(head -1 $dst/baseline.txt)"
   done
 done
